@@ -26,7 +26,7 @@ type Config struct {
 	Bounds       map[string]int // leaf-name suffix -> bound
 	MaxDepth     int
 	MaxBlockVis  int
-	Impl         map[string]*ssa.Function // interface "pkgpath.Iface.Method" -> resolved elys method
+	IfaceContracts map[string]*Contract // "IfaceName.Method" -> contract
 	Resolver     func(iface types.Type, method string) *ssa.Function
 	Debug        bool
 	DecAbstract  bool // two-symbolic-operand Dec products/quotients become uninterpreted with sign/zero/unit facts
@@ -74,6 +74,9 @@ type Exec struct {
 	inSpec    int // >0 while evaluating a specification expression
 	recovering []*frame
 	Calls     []string // log of notable call events on this path (mint/burn/send sites etc.)
+	rowInvDone map[string]bool
+	UsedContracts map[string]bool
+	TopKey    string
 }
 
 func (ex *Exec) abort(format string, a ...interface{}) {
@@ -824,6 +827,9 @@ func (ex *Exec) evalValue(fr *frame, ins ssa.Value) Val {
 		}
 		if t, ok := x.(*smt.Term); ok && t.Sort == smt.Err {
 			return t
+		}
+		if c, ok := x.(*CtxV); ok {
+			return c
 		}
 		return &IfaceV{Dyn: ins.X.Type(), V: x}
 	case *ssa.Extract:
